@@ -76,7 +76,7 @@ def run(ctx):
     ctx.cov["rule"] = ("random regular expressions (literals, classes, negated classes, dot, alternation, * + ? {m,n}, escapes, case-insensitive literals incl. ß) x three character sets: "
                        "the automaton returned by interegular_to_wfsa vs the Coq model of the post-processing run on the same DFA (arc list and weights exactly), weight > 0 vs re.fullmatch on all strings to length 3 over the character set, "
                        "per-state outgoing + final mass = 1; non-trivial = pattern matching at least one tested string")
-    ok, out = ctx.build(["proofs/RegexProofs.vo", "proofs/RegexLiveProofs.vo", "proofs/RegexLangProofs.vo", "model/RegexLive.vo"])
+    ok, out = ctx.build(["proofs/RegexProofs.vo", "proofs/RegexLiveProofs.vo", "proofs/RegexLangProofs.vo", "proofs/SubProbProofs.vo", "model/RegexLive.vo"])
     if ok:
         ctx.prove("props/C18.v")
     else:
